@@ -23,6 +23,20 @@ def Out.isOk (o : Out) : Bool := o.err = .ok
 /-- Result of the closure passed to `withNewCas`: an error, or new rows, the next row id, an event, the result. -/
 abbrev TxnFn := (newCas now nextRowId : Nat) → Docs → Out ⊕ (Docs × Nat × Option Event × Out)
 
+/-- The row-level core of a write: from the key's current row (if any) to an error, or to the new row
+    (`none` = nothing written), the event to post and the result. `rowid` of a new row is assigned by `liftRow`. -/
+abbrev RowFn := (newCas now : Nat) → Option Row → Out ⊕ (Option Row × Option Event × Out)
+
+/-- Run a row-level write against the collection's table. -/
+def liftRow (k : String) (f : RowFn) : TxnFn := fun newCas now nid docs =>
+  match f newCas now (docs.get? k) with
+  | .inl out => .inl out
+  | .inr (none, ev, out) => .inr (docs, nid, ev, out)
+  | .inr (some r', ev, out) =>
+    match docs.get? k with
+    | some old => .inr (docs.put k { r' with rowid := old.rowid }, nid, ev, out)
+    | none => .inr (docs.put k { r' with rowid := nid }, nid + 1, ev, out)
+
 /-- `scheduleExpirationAtOrBefore`. -/
 def schedAtOrBefore (next exp : Nat) : Nat :=
   if exp = 0 then next else if next = 0 ∨ exp < next then exp else next
@@ -51,22 +65,22 @@ def withNewCas (s : State) (c : String) (fn : TxnFn) : State × Out :=
 
 /-! ### Add / AddRaw -/
 
-def addFn (k : String) (exp : Nat) (val : String) (isJSON : Bool) : TxnFn := fun newCas now nid docs =>
+def addRow (k : String) (exp : Nat) (val : String) (isJSON : Bool) : RowFn := fun newCas now old =>
   let exp := absExp now exp
-  match docs.get? k with
+  match old with
   | none =>
-    let r : Row := { rowid := nid, value := some val, cas := newCas, exp := exp, isJSON := isJSON, xattrs := [], tomb := false, rev := 1 }
-    .inr (docs.put k r, nid + 1,
+    .inr (some { rowid := 0, value := some val, cas := newCas, exp := exp, isJSON := isJSON, xattrs := [], tomb := false, rev := 1 },
       some { key := k, value := some val, isDeletion := false, isJSON := isJSON, xattrs := [], cas := newCas, exp := exp, rev := 1 },
       { added := true })
   | some r =>
     if r.tomb then
-      let r' : Row := { r with value := some val, xattrs := [], cas := newCas, exp := exp, isJSON := isJSON, tomb := false, rev := r.rev + 1 }
-      .inr (docs.put k r', nid,
+      .inr (some { r with value := some val, xattrs := [], cas := newCas, exp := exp, isJSON := isJSON, tomb := false, rev := r.rev + 1 },
         some { key := k, value := some val, isDeletion := false, isJSON := isJSON, xattrs := [], cas := newCas, exp := exp, rev := r.rev + 1 },
         { added := true })
     else
-      .inr (docs, nid, none, { added := false })
+      .inr (none, none, { added := false })
+
+def addFn (k : String) (exp : Nat) (val : String) (isJSON : Bool) : TxnFn := liftRow k (addRow k exp val isJSON)
 
 /-- `Add` (`json = true`) and `AddRaw` (`json = false`: datatype from `looksLikeJSON`). -/
 def opAdd (s : State) (c k : String) (exp : Nat) (val : String) (json : Bool) : State × Out :=
@@ -74,26 +88,28 @@ def opAdd (s : State) (c k : String) (exp : Nat) (val : String) (json : Bool) : 
 
 /-! ### Set / SetRaw / Incr share `_set` -/
 
-/-- `_set`: returns the new docs, next row id, the xattrs kept, the new revision, the expiry stored. -/
-def setCore (docs : Docs) (nid : Nat) (k : String) (exp : Nat) (preserveExp : Bool) (val : String) (isJSON : Bool) (newCas : Nat) :
-    Docs × Nat × Xattrs × Nat × Nat :=
-  match docs.get? k with
+/-- `_set`: the new row, the xattrs kept, the new revision, the expiry stored. -/
+def setCore (old : Option Row) (exp : Nat) (preserveExp : Bool) (val : String) (isJSON : Bool) (newCas : Nat) :
+    Row × Xattrs × Nat × Nat :=
+  match old with
   | none =>
-    let r : Row := { rowid := nid, value := some val, cas := newCas, exp := exp, isJSON := isJSON, xattrs := [], tomb := false, rev := 1 }
-    (docs.put k r, nid + 1, [], 1, exp)
+    ({ rowid := 0, value := some val, cas := newCas, exp := exp, isJSON := isJSON, xattrs := [], tomb := false, rev := 1 }, [], 1, exp)
   | some r =>
     let xattrs := if r.value.isSome then r.xattrs else []   -- cleared whenever resurrecting a tombstone
     let exp' := if preserveExp then r.exp else exp
-    let r' : Row := { r with value := some val, xattrs := xattrs, cas := newCas, exp := exp', isJSON := isJSON, rev := r.rev + 1, tomb := false }
-    (docs.put k r', nid, xattrs, r.rev + 1, exp')
+    ({ r with value := some val, xattrs := xattrs, cas := newCas, exp := exp', isJSON := isJSON, rev := r.rev + 1, tomb := false },
+      xattrs, r.rev + 1, exp')
 
-def setFn (k : String) (exp : Nat) (preserveExp : Bool) (val : String) (isJSON : Bool) : TxnFn := fun newCas now nid docs =>
+def setRow (k : String) (exp : Nat) (preserveExp : Bool) (val : String) (isJSON : Bool) : RowFn := fun newCas now old =>
   let exp := absExp now exp
-  let (docs', nid', xattrs, rev, expStored) := setCore docs nid k exp preserveExp val isJSON newCas
+  let (r', xattrs, rev, expStored) := setCore old exp preserveExp val isJSON newCas
   let evExp := if preserveExp then expStored else exp
-  .inr (docs', nid',
+  .inr (some r',
     some { key := k, value := some val, isDeletion := false, isJSON := isJSON, xattrs := xattrs, cas := newCas, exp := evExp, rev := rev },
     {})
+
+def setFn (k : String) (exp : Nat) (preserveExp : Bool) (val : String) (isJSON : Bool) : TxnFn :=
+  liftRow k (setRow k exp preserveExp val isJSON)
 
 /-- `Set` (`raw = false`, stored as JSON) and `SetRaw` (`raw = true`). -/
 def opSet (s : State) (c k : String) (exp : Nat) (preserveExp : Bool) (val : String) (raw : Bool) : State × Out :=
@@ -109,10 +125,10 @@ def parseUInt64 (s : String) : Option Nat :=
     let n := cs.foldl (fun a c => a * 10 + (c.toNat - 48)) 0
     if n < 2 ^ 64 then some n else none
 
-def incrFn (k : String) (amt deflt exp : Nat) : TxnFn := fun newCas now nid docs =>
+def incrRow (k : String) (amt deflt exp : Nat) : RowFn := fun newCas now old =>
   let exp := absExp now exp
   let cur : Option (Option Nat) :=   -- none = unreadable, some none = missing
-    match docs.get? k with
+    match old with
     | none => some none
     | some r =>
       match r.value with
@@ -127,10 +143,12 @@ def incrFn (k : String) (amt deflt exp : Nat) : TxnFn := fun newCas now nid docs
       | some n => (n + amt) % 2 ^ 64
       | none => deflt
     let raw := toString result
-    let (docs', nid', xattrs, rev, _) := setCore docs nid k exp false raw true newCas
-    .inr (docs', nid',
+    let (r', xattrs, rev, _) := setCore old exp false raw true newCas
+    .inr (some r',
       some { key := k, value := some raw, isDeletion := false, isJSON := true, xattrs := xattrs, cas := newCas, exp := exp, rev := rev },
       { n := result })
+
+def incrFn (k : String) (amt deflt exp : Nat) : TxnFn := liftRow k (incrRow k amt deflt exp)
 
 def opIncr (s : State) (c k : String) (amt deflt exp : Nat) : State × Out :=
   withNewCas s c (incrFn k amt deflt exp)
@@ -143,9 +161,8 @@ structure WOpts where
   append : Bool := false
   deriving Repr, Inhabited
 
-def wcasFn (k : String) (exp cas : Nat) (val : Option String) (o : WOpts) : TxnFn := fun newCas now nid docs =>
+def wcasRow (k : String) (exp cas : Nat) (val : Option String) (o : WOpts) : RowFn := fun newCas now old =>
   let isJSON := (!(o.raw || o.append)) && val.isSome
-  let old := docs.get? k
   match old, cas with
   | none, (_ + 1) => .inl { err := .missing }
   | _, _ =>
@@ -153,32 +170,32 @@ def wcasFn (k : String) (exp cas : Nat) (val : Option String) (o : WOpts) : TxnF
     let exp := absExp now exp
     let tomb := val.isNone
     -- the statement chosen, applied: `some row` when a row was inserted or updated
-    let written : Option (Row × Nat) :=
+    let written : Option Row :=
       if o.append then
         match old with
         | some r =>
           match r.value with
           | some v =>
             if r.cas = cas then
-              some ({ r with value := val.map (v ++ ·), cas := newCas, exp := exp, isJSON := isJSON, rev := rev,
-                             xattrs := if r.tomb then [] else r.xattrs, tomb := tomb }, nid)
+              some { r with value := val.map (v ++ ·), cas := newCas, exp := exp, isJSON := isJSON, rev := rev,
+                            xattrs := if r.tomb then [] else r.xattrs, tomb := tomb }
             else none
           | none => none
         | none => none
       else if o.addOnly ∨ cas = 0 then
         match old with
         | none =>
-          some ({ rowid := nid, value := val, cas := newCas, exp := exp, isJSON := isJSON, xattrs := [], tomb := tomb, rev := rev }, nid + 1)
+          some { rowid := 0, value := val, cas := newCas, exp := exp, isJSON := isJSON, xattrs := [], tomb := tomb, rev := rev }
         | some r =>
           if r.tomb then
-            some ({ r with value := val, xattrs := [], cas := newCas, exp := exp, isJSON := isJSON, tomb := tomb, rev := rev }, nid)
+            some { r with value := val, xattrs := [], cas := newCas, exp := exp, isJSON := isJSON, tomb := tomb, rev := rev }
           else none
       else
         match old with
         | some r =>
           if r.cas = cas then
-            some ({ r with value := val, cas := newCas, exp := exp, isJSON := isJSON, rev := rev,
-                           xattrs := if r.tomb then [] else r.xattrs, tomb := tomb }, nid)
+            some { r with value := val, cas := newCas, exp := exp, isJSON := isJSON, rev := rev,
+                          xattrs := if r.tomb then [] else r.xattrs, tomb := tomb }
           else none
         | none => none
     match written with
@@ -190,42 +207,46 @@ def wcasFn (k : String) (exp cas : Nat) (val : Option String) (o : WOpts) : TxnF
         if r.value.isNone then .inl { err := .missing }
         else if o.addOnly then .inl { err := .keyExists }
         else .inl { err := .casMismatch, actual := some r.cas }
-    | some (r', nid') =>
-      .inr (docs.put k r', nid',
+    | some r' =>
+      .inr (some r',
         some { key := k, value := r'.value, isDeletion := val.isNone, isJSON := isJSON, xattrs := r'.xattrs, cas := newCas, exp := exp, rev := rev },
         { cas := newCas })
+
+def wcasFn (k : String) (exp cas : Nat) (val : Option String) (o : WOpts) : TxnFn := liftRow k (wcasRow k exp cas val o)
 
 def opWriteCas (s : State) (c k : String) (exp cas : Nat) (val : Option String) (o : WOpts) : State × Out :=
   withNewCas s c (wcasFn k exp cas val o)
 
 /-! ### Remove / Delete -/
 
-def removeFn (k : String) (ifCas : Option Nat) : TxnFn := fun newCas _ nid docs =>
-  match docs.get? k with
+def removeRow (k : String) (ifCas : Option Nat) : RowFn := fun newCas _ old =>
+  match old with
   | none => .inl { err := .missing }
   | some r =>
     if ifCas.isSome ∧ ifCas ≠ some r.cas then .inl { err := .casMismatch, actual := some r.cas }
     else
       let xattrs := Xattrs.systemOnly r.xattrs   -- deleting a doc removes user xattrs but not system ones
-      let r' : Row := { r with value := none, cas := newCas, exp := 0, isJSON := false, xattrs := xattrs, tomb := true, rev := r.rev + 1 }
-      .inr (docs.put k r', nid,
+      .inr (some { r with value := none, cas := newCas, exp := 0, isJSON := false, xattrs := xattrs, tomb := true, rev := r.rev + 1 },
         some { key := k, value := none, isDeletion := true, isJSON := false, xattrs := xattrs, cas := newCas, exp := 0, rev := r.rev + 1 },
         { cas := newCas })
+
+def removeFn (k : String) (ifCas : Option Nat) : TxnFn := liftRow k (removeRow k ifCas)
 
 def opRemove (s : State) (c k : String) (cas : Nat) : State × Out := withNewCas s c (removeFn k (some cas))
 def opDelete (s : State) (c k : String) : State × Out := withNewCas s c (removeFn k none)
 
 /-! ### Touch / GetAndTouchRaw -/
 
-def touchFn (k : String) (exp : Nat) : TxnFn := fun _ now nid docs =>
+def touchRow (exp : Nat) : RowFn := fun _ now old =>
   let exp := absExp now exp
-  match docs.get? k with
+  match old with
   | none => .inl { err := .missing }
   | some r =>
     match r.value with
     | none => .inl { err := .missing, cas := r.cas }
-    | some v =>
-      .inr (docs.put k { r with exp := exp, rev := r.rev + 1 }, nid, none, { cas := r.cas, val := some v })
+    | some v => .inr (some { r with exp := exp, rev := r.rev + 1 }, none, { cas := r.cas, val := some v })
+
+def touchFn (k : String) (exp : Nat) : TxnFn := liftRow k (touchRow exp)
 
 def opTouch (s : State) (c k : String) (exp : Nat) : State × Out :=
   let (s', out) := withNewCas s c (touchFn k exp)
